@@ -29,6 +29,10 @@ EXPLANATION = (
     'statement is the variant whose reference counter is bumped and written; R4 the all / meson-test-prereq / meson-benchmark-prereq '
     'aggregates take the first output of every element of get_build_by_default_targets() / get_testlike_targets(); R5 add_target stores a '
     'target only after the forbidden-name and duplicate-id checks, and backend utility targets are created under a guard on the same name. '
+    'R6 wherever an output name taken directly from Y (get_outputs() element, get_filename(), get_debug_filename(), import_filename) is joined with '
+    'get_target_dir(X) in backends.py / ninjabackend.py, X is Y, and with get_target_private_dir(X) only under isinstance(Y, GeneratedList); '
+    'R7 in every method of the BuildTarget family, after a write of the field get_filename() returns (or an overwrite of get_outputs()[0]) every path '
+    're-assigns outputs[0] from filename before returning (classes for which generate_target writes no link statement are exempt). '
     'Does NOT decide acyclicity, existence of inputs, reachability from `all` of a concrete project, whether the guard under which a '
     'rule is defined (language present, machine is AIX...) agrees with the guard under which it is used, or whether a backend utility target that is '
     'neither reserved nor guarded is acceptable (a collision is then still rejected at generation time by R1/R2, e.g. coverage-sonarqube).')
@@ -1464,6 +1468,317 @@ def r5(ctx: RuleCtx) -> None:
              f'created under an all_outputs guard {sorted(set(classes["guarded"]))}; neither (collision caught at generation time by check_outputs) {sorted(set(classes["caught-by-R1/R2"]))}')
 
 
+# ----------------------------------------------------------------------------
+# R6  receiver agreement: an output name is joined with the directory of the target that owns it (K8)
+# ----------------------------------------------------------------------------
+OWN_DIR = {'self.get_target_dir', 'self.get_custom_target_output_dir'}
+PRIVATE_DIR = {'self.get_target_private_dir'}
+OUT_CALLS = {'get_filename', 'get_debug_filename'}
+OUT_LISTS = {'get_outputs'}
+OUT_ATTRS = {'import_filename', 'debug_filename'}
+
+
+def _comp_env(mod: Module, fn: ast.AST, node: ast.AST) -> T.Dict[str, ast.AST]:
+    """comprehension variable -> iterable, for the comprehensions enclosing `node`."""
+    env: T.Dict[str, ast.AST] = {}
+    pm = mod.parent_map()
+    p = pm.get(node)
+    while p is not None and p is not fn:
+        if isinstance(p, (ast.ListComp, ast.SetComp, ast.GeneratorExp, ast.DictComp)):
+            for g in p.generators:
+                if isinstance(g.target, ast.Name):
+                    env.setdefault(g.target.id, g.iter)
+                else:
+                    for t in ast.walk(g.target):
+                        if isinstance(t, ast.Name):
+                            env.setdefault(t.id, ast.Constant(value=None))
+        p = pm.get(p)
+    return env
+
+
+def _outputs_of(e: ast.AST) -> T.Optional[str]:
+    """`Y.get_outputs()` -> 'Y' (Y a plain name)."""
+    if isinstance(e, ast.Call) and isinstance(e.func, ast.Attribute) and e.func.attr in OUT_LISTS and not e.args and isinstance(e.func.value, ast.Name):
+        return e.func.value.id
+    return None
+
+
+def _owners(info: L.FnInfo, e: ast.AST, at: Node, env: T.Dict[str, ast.AST], depth: int = 0) -> T.Set[T.Tuple[str, int]]:
+    """Targets whose output name `e` *directly is* (no derivation): {(local name of the target, id of the node where the name is read)}."""
+    out: T.Set[T.Tuple[str, int]] = set()
+    if depth > 4:
+        return out
+    if isinstance(e, ast.Call) and isinstance(e.func, ast.Attribute) and e.func.attr in OUT_CALLS and not e.args and isinstance(e.func.value, ast.Name):
+        out.add((e.func.value.id, at.id))
+    elif isinstance(e, ast.Subscript) and _outputs_of(e.value) is not None and not isinstance(e.slice, ast.Slice):
+        out.add((_outputs_of(e.value) or '', at.id))
+    elif isinstance(e, ast.Attribute) and e.attr in OUT_ATTRS and isinstance(e.value, ast.Name) and e.value.id not in ('self', 'cls'):
+        out.add((e.value.id, at.id))
+    elif isinstance(e, ast.Name):
+        if e.id in env:
+            y = _outputs_of(L.inline_locals(info, env[e.id], at))
+            if y is not None:
+                src = env[e.id]
+                out.add((y if _outputs_of(src) is not None else y, at.id))
+            return out
+        for d in info.reaching(e.id, at):
+            if not isinstance(d, L.Def) or d.value is None:
+                continue
+            if d.kind == 'assign':
+                out |= _owners(info, d.value, d.node, {}, depth + 1)
+            elif d.kind == 'iter' and d.index is None:
+                if _outputs_of(d.value) is not None:
+                    out.add((_outputs_of(d.value) or '', d.node.id))
+                else:
+                    inl = L.inline_locals(info, d.value, d.node)
+                    # `outs = Y.get_outputs(); for o in outs`: owner read where the list was taken
+                    if _outputs_of(inl) is not None and isinstance(d.value, ast.Name):
+                        for d2 in info.reaching(d.value.id, d.node):
+                            if isinstance(d2, L.Def) and d2.kind == 'assign' and d2.value is not None and _outputs_of(d2.value) is not None:
+                                out.add((_outputs_of(d2.value) or '', d2.node.id))
+    return out
+
+
+def _dir_alternatives(info: L.FnInfo, e: ast.AST, at: Node, depth: int = 0) -> T.List[T.Tuple[str, ast.AST, Node]]:
+    """(kind own|private, argument expression, node where it is evaluated) for a directory expression."""
+    out: T.List[T.Tuple[str, ast.AST, Node]] = []
+    if isinstance(e, ast.Call) and len(e.args) == 1 and not e.keywords:
+        cn = call_name(e)
+        if cn in OWN_DIR:
+            out.append(('own', e.args[0], at))
+        elif cn in PRIVATE_DIR:
+            out.append(('private', e.args[0], at))
+    elif isinstance(e, ast.Name) and depth < 3:
+        for d in info.reaching(e.id, at):
+            if isinstance(d, L.Def) and d.kind == 'assign' and d.value is not None:
+                out.extend(_dir_alternatives(info, d.value, d.node, depth + 1))
+    return out
+
+
+def _defs_key(info: L.FnInfo, name: str, node_id: int) -> T.FrozenSet[T.Any]:
+    return frozenset((d.node.id if isinstance(d, L.Def) else d) for d in info.reaching(name, info.cfg.nodes[node_id]))
+
+
+def _under_isinstance(ctx: RuleCtx, info: L.FnInfo, mod: Module, n: Node, subject: str, cls_name: str) -> bool:
+    """Is node n only reachable through the true edge of a test `isinstance(<subject>, <class named cls_name>)`?"""
+    cfg = info.cfg
+    for t in cfg.nodes:
+        if t.kind != 'test':
+            continue
+        tt = L.inline_locals(info, t.ast.test, t)  # type: ignore[union-attr]
+        pol = True
+        while isinstance(tt, ast.UnaryOp) and isinstance(tt.op, ast.Not):
+            pol = not pol
+            tt = tt.operand
+        if not (isinstance(tt, ast.Call) and call_name(tt) == 'isinstance' and len(tt.args) == 2 and isinstance(tt.args[0], ast.Name) and tt.args[0].id == subject):
+            continue
+        names = tt.args[1].elts if isinstance(tt.args[1], ast.Tuple) else [tt.args[1]]
+        if len(names) != 1:
+            continue
+        rc = ctx.repo.resolve_class(mod, attr_chain(names[0]) or '')
+        if rc is None or rc[1].name != cls_name:
+            continue
+        false_succ = [cfg.nodes[b] for b, lab in cfg.succ[t.id] if lab is (not pol)]
+        if cfg.dominated_by_any(n, [t]) and n.id not in cfg.reachable(false_succ, [t], include_start=True):
+            return True
+    return False
+
+
+def r6(ctx: RuleCtx) -> None:
+    n_own = n_priv = 0
+    for rel, cls in ((BK, 'Backend'), (NB, BACKEND)):
+        mod = ctx.repo.module(rel)
+        infos = _infos(ctx) if rel == NB else L.Infos(mod)
+        for q, f in mod.funcs().items():
+            if not q.startswith(cls + '.'):
+                continue
+            for c in _own_calls(f):
+                if call_name(c) != 'os.path.join' or len(c.args) < 2 or c.keywords or any(isinstance(a, ast.Starred) for a in c.args):
+                    continue
+                if not (isinstance(c.args[0], ast.Name) or (isinstance(c.args[0], ast.Call) and call_name(c.args[0]) in OWN_DIR | PRIVATE_DIR)):
+                    continue
+                info = infos.get(q)
+                nodes = info.nodes_of(c)
+                if not nodes:
+                    continue
+                at = nodes[0]
+                dirs = _dir_alternatives(info, c.args[0], at)
+                if not dirs:
+                    continue
+                env = _comp_env(mod, f, c)
+                owners: T.Set[T.Tuple[str, int]] = set()
+                for a in c.args[1:]:
+                    owners |= _owners(info, a, at, env)
+                if not owners:
+                    continue
+                for kind, xarg, xnode in dirs:
+                    for y, ynode in sorted(owners):
+                        if kind == 'own':
+                            n_own += 1
+                            same = isinstance(xarg, ast.Name) and xarg.id == y and _defs_key(info, y, xnode.id) == _defs_key(info, y, ynode)
+                            if not same and isinstance(xarg, ast.Name) and xarg.id == y and y in env:
+                                same = True
+                            if not same and not isinstance(xarg, ast.Name):
+                                raise Undecided(f'{q}: directory argument `{short(xarg, 40)}` in `{short(c, 80)}` is not a plain local')
+                            ctx.require(same, f'{q}: output of `{y}` is joined with the directory of `{norm(xarg)}`', mod, q, c,
+                                        f'`{short(c, 100)}` joins an output name of `{y}` with the directory of `{norm(xarg)}`: the statement that builds `{y}` produces the file in '
+                                        f'the directory of `{y}`, so this path is neither produced by any statement nor existing when the two live in different directories', c)
+                        else:
+                            n_priv += 1
+                            guard_node = xnode
+                            ok = _under_isinstance(ctx, info, mod, guard_node, y, 'GeneratedList') or _under_isinstance(ctx, info, mod, at, y, 'GeneratedList')
+                            ctx.require(ok, f'{q}: outputs of `{y}` are placed in the private directory of `{norm(xarg)}` only when `{y}` is a GeneratedList', mod, q, c,
+                                        f'`{short(c, 100)}` joins an output name of `{y}` with the *private* directory of `{norm(xarg)}` on a path where `{y}` is not known to be a '
+                                        'GeneratedList (only generator outputs live in the private directory of their consumer; a target\'s outputs live in its own directory)', c)
+    ctx.floor('output names joined with the owning target\'s directory', n_own, 21)
+    ctx.floor('generator outputs joined with the consumer\'s private directory under isinstance(.., GeneratedList)', n_priv, 5)
+
+
+# ----------------------------------------------------------------------------
+# R7  no stale copy: get_outputs()[0] and get_filename() of a build target agree when a method returns (K4)
+# ----------------------------------------------------------------------------
+BUILD = 'mesonbuild/build.py'
+
+
+def _getter_field(mod: Module, cls: str, meth: str) -> str:
+    fn = mod.func(f'{cls}.{meth}')
+    body = [s for s in fn.body if not (isinstance(s, ast.Expr) and isinstance(s.value, ast.Constant))]
+    if len(body) == 1 and isinstance(body[0], ast.Return) and body[0].value is not None:
+        c = attr_chain(body[0].value)
+        if c and c.startswith('self.') and c.count('.') == 1:
+            return c.split('.')[1]
+    raise Undecided(f'{cls}.{meth} is not `return self.<field>`')
+
+
+def r7(ctx: RuleCtx) -> None:
+    bm = ctx.repo.module(BUILD)
+    mod = ctx.repo.module(NB)
+    root = 'BuildTarget'
+    # the pair is read off the getters the backend uses: the link statement is named after get_filename(), the aggregates after get_outputs()[0]
+    f_name = _getter_field(bm, root, 'get_filename')
+    f_outs = _getter_field(bm, root, 'get_outputs')
+    gtf = ctx.repo.module(BK).func('Backend.get_target_filename')
+    ctx.require(any(isinstance(c, ast.Call) and call_method(c) == 'get_filename' for c in ast.walk(gtf)), 'Backend.get_target_filename names a build target by get_filename()',
+                BK, 'Backend.get_target_filename', 'get_filename()', 'Backend.get_target_filename no longer reads get_filename(): the (filename, outputs[0]) pair of R7 is stale')
+    rootcls = bm.cls(root)
+    family = [q for q, c in bm.classes().items() if '.' not in q and any(x[1] is rootcls for x in ctx.repo.mro(bm, c))]
+    # classes for which no link statement is written: generate_target leaves before generate_link when isinstance(target, K)
+    gi = _infos(ctx).get(f'{BACKEND}.generate_target')
+    links = [n for n in gi.cfg.nodes if any(call_name(c) == 'self.generate_link' for c in L.node_calls(n))]
+    exempt: T.Dict[str, str] = {}
+    for t in gi.cfg.nodes:
+        if t.kind != 'test':
+            continue
+        tt = L.inline_locals(gi, t.ast.test, t)  # type: ignore[union-attr]
+        if isinstance(tt, ast.Call) and call_name(tt) == 'isinstance' and len(tt.args) == 2 and not isinstance(tt.args[1], ast.Tuple):
+            rc = ctx.repo.resolve_class(mod, attr_chain(tt.args[1]) or '')
+            if rc is not None and rc[0] is bm and links:
+                ts = [gi.cfg.nodes[b] for b, lab in gi.cfg.succ[t.id] if lab is True]
+                r = gi.cfg.reachable(ts, [], include_start=True)
+                subj = tt.args[0].id if isinstance(tt.args[0], ast.Name) else None
+                delegated = subj is None or any((call_name(c) or '').startswith('self.') and any(isinstance(a, ast.Name) and a.id == subj for a in c.args)
+                                                for i in r for c in L.node_calls(gi.cfg.nodes[i]))
+                if not any(l.id in r for l in links) and gi.cfg.exit_return.id in r and all(gi.cfg.dominated_by_any(l, [t]) for l in links) and not delegated:
+                    exempt[rc[1].name] = ('generate_target returns before generate_link for this class without handing the target to another generator: '
+                                          'no statement is named after get_filename()')
+
+    def is_sync(st: ast.AST) -> bool:
+        if not isinstance(st, ast.Assign) or len(st.targets) != 1:
+            return False
+        tg, v = st.targets[0], st.value
+        if isinstance(tg, ast.Subscript) and attr_chain(tg.value) == f'self.{f_outs}' and isinstance(tg.slice, ast.Constant) and tg.slice.value == 0:
+            return attr_chain(v) == f'self.{f_name}'
+        if attr_chain(tg) == f'self.{f_outs}' and isinstance(v, ast.List) and v.elts:
+            return attr_chain(v.elts[0]) == f'self.{f_name}'
+        return False
+
+    def is_desync(st: ast.AST) -> T.Optional[str]:
+        tgs: T.List[ast.AST] = []
+        if isinstance(st, ast.Assign):
+            tgs = list(st.targets)
+        elif isinstance(st, (ast.AugAssign, ast.AnnAssign)) and getattr(st, 'value', None) is not None:
+            tgs = [st.target]
+        for tg in tgs:
+            for x in (tg.elts if isinstance(tg, (ast.Tuple, ast.List)) else [tg]):
+                if attr_chain(x) == f'self.{f_name}':
+                    return f'self.{f_name} is written'
+                if attr_chain(x) == f'self.{f_outs}' or (isinstance(x, ast.Subscript) and attr_chain(x.value) == f'self.{f_outs}' and
+                                                         not (isinstance(x.slice, ast.Constant) and isinstance(x.slice.value, int) and x.slice.value > 0)):
+                    return f'self.{f_outs}[0] is overwritten'
+        for c in ast.walk(st) if isinstance(st, ast.Expr) else []:
+            if isinstance(c, ast.Call) and isinstance(c.func, ast.Attribute) and attr_chain(c.func.value) == f'self.{f_outs}' and c.func.attr in ('insert', 'clear', 'pop', 'remove', 'reverse', 'sort'):
+                return f'self.{f_outs} is reordered'
+        return None
+
+    always_sync: T.Dict[str, bool] = {}
+
+    def method_info(cls: str, meth: str) -> T.Optional[L.FnInfo]:
+        found = ctx.repo.find_method(bm, bm.cls(cls), meth)
+        if found is None or found[0] is not bm:
+            return None
+        return L.FnInfo(bm, f'{found[1].name}.{meth}', found[2])
+
+    def syncs(cls: str, info: L.FnInfo, depth: int) -> T.List[Node]:
+        out = []
+        for n in info.cfg.nodes:
+            if n.kind == 'stmt' and is_sync(n.ast):  # type: ignore[arg-type]
+                out.append(n)
+            elif depth < 2:
+                for c in L.node_calls(n):
+                    cn = call_name(c) or ''
+                    if cn.startswith('self.') and cn.count('.') == 1:
+                        key = f'{cls}.{cn[5:]}'
+                        if key not in always_sync:
+                            always_sync[key] = False
+                            hi = method_info(cls, cn[5:])
+                            if hi is not None:
+                                hs = syncs(cls, hi, depth + 1)
+                                des = [m for m in hi.cfg.nodes if m.kind == 'stmt' and not is_sync(m.ast) and is_desync(m.ast)]  # type: ignore[arg-type]
+                                always_sync[key] = bool(hs) and hi.cfg.exit_return.id not in hi.reach(hi.cfg.entry, hs) and \
+                                    not any(hi.cfg.exit_return.id in hi.reach(m, hs) for m in des)
+                        if always_sync[key]:
+                            out.append(n)
+        return out
+
+    nob = 0
+    for cls in family:
+        own_getters = [g for g in ('get_filename', 'get_outputs') if cls != root and bm.has_func(f'{cls}.{g}')]
+        if own_getters:
+            ctx.note(f'{cls}: overrides {own_getters}; the (filename, outputs[0]) pair of {root} does not apply')
+            continue
+        for meth, fn in bm.methods(cls).items():
+            if f'self.{f_name}' not in ast.unparse(fn) and f'self.{f_outs}' not in ast.unparse(fn):
+                continue
+            info = L.FnInfo(bm, f'{cls}.{meth}', fn)
+            des = [(n, is_desync(n.ast)) for n in info.cfg.nodes if n.kind == 'stmt' and not is_sync(n.ast) and is_desync(n.ast)]  # type: ignore[arg-type]
+            if not des:
+                continue
+            sy = syncs(cls, info, 0)
+            for n, why in des:
+                nob += 1
+                esc = info.cfg.exit_return.id in info.reach(n, sy)
+                if esc and cls in exempt:
+                    ctx.ok(f'{cls}.{meth}: `{short(n.ast, 50)}` leaves outputs[0] != filename; exempt: {exempt[cls]}')
+                    continue
+                if esc:
+                    # could a callee on the way re-establish the copy in a form this rule does not read?
+                    reach = info.reach(n, sy)
+                    for m in info.cfg.nodes:
+                        if m.id in reach or m.id == n.id:
+                            for c in L.node_calls(m):
+                                cn = call_name(c) or ''
+                                if cn.startswith('self.') and cn.count('.') == 1 and m.id != n.id:
+                                    hi = method_info(cls, cn[5:])
+                                    if hi is None or any(f'self.{f_outs}' in ast.unparse(x) for x in ast.walk(hi.fn) if isinstance(x, (ast.Assign, ast.AugAssign))):
+                                        raise Undecided(f'{cls}.{meth}: after `{short(n.ast, 50)}` the call `{short(c, 50)}` may re-establish {f_outs}[0] in a form the rule does not read')
+                ctx.require(not esc, f'{cls}.{meth}: after `{short(n.ast, 50)}` every path re-assigns {f_outs}[0] from {f_name} before returning', bm, f'{cls}.{meth}', n.ast,
+                            f'{why} by `{short(n.ast, 60)}` and a path reaches the end of {cls}.{meth} without `self.{f_outs}[0] = self.{f_name}`: get_outputs()[0] (the name '
+                            f'`all` / meson-test-prereq / installation use) and get_filename() (the name of the link statement) differ, so the aggregates refer to a file no statement produces',
+                            n.ast)
+    ctx.floor('writes of filename / outputs[0] in the BuildTarget family followed to the end of their method', nob, 10)
+    ctx.note(f'pair: get_filename() -> self.{f_name}, get_outputs() -> self.{f_outs}; family {family}; exempt {sorted(exempt)}')
+
+
 def _present_forces(test: ast.AST) -> T.Optional[T.Tuple[bool, ast.Compare]]:
     """If `X in self.all_outputs` being true forces the outcome of `test`: (forced outcome, the comparison); else None."""
     def rec(e: ast.AST) -> T.Optional[T.Tuple[bool, ast.Compare]]:
@@ -1493,4 +1808,6 @@ RULES = [
     Rule('C04.R3b', 'the _RSP variant referenced is the variant counted and written', r3b),
     Rule('C04.R4', 'aggregates all / meson-test-prereq / meson-benchmark-prereq', r4),
     Rule('C04.R5', 'name collisions rejected at configure time', r5),
+    Rule('C04.R6', 'an output name is joined with the directory of the target that owns it', r6),
+    Rule('C04.R7', 'outputs[0] is re-assigned from filename after every write (no stale copy)', r7),
 ]
